@@ -459,8 +459,8 @@ func runRound(in roundInput, s sink) bool {
 	go func() { wg.Wait(); close(done) }()
 	select {
 	case <-done:
-	case <-time.After(60 * time.Second):
-		in.What = "goroutines did not finish within 60 s"
+	case <-time.After(300 * time.Second):
+		in.What = "goroutines did not finish within 300 s"
 		s.fail("property", "C18 readers are stuck (deadlock/livelock)", in, "")
 		return false
 	}
@@ -529,7 +529,7 @@ func runC18(c *C) {
 		for i := 0; i < 300 && runRound(in, s); i++ {
 		}
 	}
-	rounds := c.N(800, 20000)
+	rounds := c.N(800, 40000)
 	for i := 0; i < rounds && !c.Failed(); i++ {
 		in := genRound(c.Rand)
 		if i%7 == 0 {
@@ -561,9 +561,9 @@ func runC18(c *C) {
 		c.R.Notes = append(c.R.Notes, "race detector run skipped: "+v.RaceError)
 		c.Hist("race:skipped")
 	} else {
-		rr := c.N(150, 2500)
+		rr := c.N(150, 5000)
 		spec := fmt.Sprintf("c18:%d:%d", c.Seed, rr)
-		res, stderr, err := runChild(v.Race, spec, time.Duration(c.N(240, 1500))*time.Second)
+		res, stderr, err := runChild(v.Race, spec, time.Duration(c.N(900, 3000))*time.Second)
 		if rep := raceReport(stderr); rep != "" {
 			c.Fail(vh.Failure{Kind: "property", What: "C18 DATA RACE reported by the race detector during read-only operations on a shared lazily decoded message",
 				Input: map[string]any{"child": spec, "binary": v.Race, "report": rep}})
